@@ -18,13 +18,14 @@ func init() { checks["C03"] = checkC03 }
 // kinds of in-flight requests, relative to the start of the command (which
 // is 100ms after they were sent)
 var c03Inflight = map[string]string{
-	"early":   "delay=600ms",  // done at t_d + 0.5s
-	"before":  "delay=2100ms", // done at t_d + D - 0.1s
-	"after":   "delay=2300ms", // would be done at t_d + D + 0.1s
-	"never":   "hang",
-	"upgrade": "upgrade",
-	"lateup":  "delay=600ms;upgrade", // ordinary in-flight request when draining begins, upgraded at t_d + 0.5s
-	"offer":   "delay=600ms",         // offers a protocol upgrade (Connection: Upgrade) that the target does not take; done at t_d + 0.5s
+	"early":      "delay=600ms",  // done at t_d + 0.5s
+	"before":     "delay=2100ms", // done at t_d + D - 0.1s
+	"after":      "delay=2300ms", // would be done at t_d + D + 0.1s
+	"never":      "hang",
+	"upgrade":    "upgrade",
+	"upgrade-ka": "upgrade",             // the same with "Connection: keep-alive, Upgrade" (what browsers send)
+	"lateup":     "delay=600ms;upgrade", // ordinary in-flight request when draining begins, upgraded at t_d + 0.5s
+	"offer":      "delay=600ms",         // offers a protocol upgrade (Connection: Upgrade) that the target does not take; done at t_d + 0.5s
 }
 
 type c03cfg struct {
@@ -45,7 +46,7 @@ func c03Configs(tier string) []c03cfg {
 	if tier == "quick" {
 		var cfgs []c03cfg
 		for _, cmd := range []string{"redeploy", "pause", "stop"} {
-			for _, in := range [][]string{nil, {"early"}, {"never"}, {"upgrade"}, {"after"}, {"before", "never"}, {"offer"}, {"lateup"}} {
+			for _, in := range [][]string{nil, {"early"}, {"never"}, {"upgrade"}, {"after"}, {"before", "never"}, {"offer"}, {"lateup"}, {"upgrade-ka"}} {
 				for _, l := range [][]string{{"quick"}, {"long"}} {
 					if in == nil && l[0] == "quick" {
 						continue
@@ -73,7 +74,7 @@ func c03Configs(tier string) []c03cfg {
 		return cfgs
 	}
 
-	kinds := []string{"early", "before", "after", "never", "upgrade", "offer", "lateup"}
+	kinds := []string{"early", "before", "after", "never", "upgrade", "offer", "lateup", "upgrade-ka"}
 	var sets [][]string
 	sets = append(sets, nil)
 	for _, k := range kinds {
@@ -223,6 +224,9 @@ func c03Scenario(c c03cfg) *Scenario {
 				plan = "delay=" + (d + 500*time.Millisecond).String()
 			}
 			spec := ReqSpec{ID: fmt.Sprintf("in%d-%s", i, k), Host: host, Plan: plan}
+			if k == "upgrade-ka" {
+				spec.Upgrade, spec.UpgradeConn = true, "keep-alive, Upgrade"
+			}
 			if k == "upgrade" || k == "lateup" {
 				spec.Upgrade = true
 			}
@@ -349,7 +353,7 @@ func c03Scenario(c c03cfg) *Scenario {
 				} else if r.HijackEOF < 0 || r.HijackEOF > td+vD {
 					vs = append(vs, Violation{"C03", "Q4 late-upgraded-connection-not-closed-at-deadline", fmt.Sprintf("%s saw EOF at %v (-1 = never), drain started %v, deadline %v", r.ID, r.HijackEOF, td, td+vD)})
 				}
-			case "upgrade":
+			case "upgrade", "upgrade-ka":
 				if !r.Hijacked {
 					vs = append(vs, Violation{"C03", "Q5 upgrade-not-established", r.Summary()})
 				} else if r.HijackEOF < 0 {
